@@ -386,16 +386,35 @@ def check_case(ctx, case):
   ctx.case(key=case, nontrivial=nontriv, sample=case if nontriv and ctx.rng.random() < 0.02 else None)
 
 
+def check_doubles(ctx):
+  """The two facts about concrete doubles assumed by get_experiment_phase_fl_eq (C14Float.SPEDoubles), on this
+  interpreter, with the constants the source uses now; then the two count triples at which they decide the phase."""
+  _mm, _snp, spe = mods()
+  lim, thr = spe.INITIALIZATION_PHASE_LIMIT, spe.MINIMUM_SUCCESS_THRESHOLD
+  if not (lim == 0.15 and thr == 0.1 and 2 * lim == 0.3 and 1 - 9 / 10 <= thr):
+    ctx.disagree("assumption SPEDoubles of get_experiment_phase_fl_eq does not hold for this interpreter's floats / the current constants",
+                 {"INITIALIZATION_PHASE_LIMIT": lim, "MINIMUM_SUCCESS_THRESHOLD": thr, "2*limit": 2 * lim, "1-9/10": 1 - 9 / 10})
+  ctx.count("spe:doubles-checked")
+  for b, n, f in ((20, 6, 4), (20, 9, 9)):
+    check_case(ctx, {"kind": "selectors", "b": b, "n": n, "f": f, "o": 0, "thr": False})
+
+
 def run(ctx, scale):
   ctx.rule = ("selectors: (budget, count, failures, open) from small grids, exact threshold placements +-1, up to 1e9, budgets below the "
               "failure count; weights: fractions on a 1/400 lattice and random; filters: 0-30 rows, tied integer alphabets and reals, all "
               "failure patterns; non-trivial = count > 0 / at least two rows; distinct by canonical input")
   ctx.partial = [
-    "float-vs-exact agreement of the selectors at thresholds holds for denominators < 1e14 (argued in DESIGN C14, not proved)",
+    "float-vs-exact agreement of the selectors: PROVED (identify_search_phase_fl_eq, identify_multimetric_phase_fl_eq, get_experiment_phase_fl_eq) "
+    "for the floating-point reading the translator derives from the same source (one rounding after every float operation / decimal literal) "
+    "and every rounding with relative error <= 2^-53 (IsRounding), for |budget|+|count|+|open|+|failures| < 1e14; the Parzen selector also uses "
+    "two facts about concrete doubles (2*0.15 == 0.3, 1 - 9/10 <= 0.1: re-checked on this interpreter each run, proved necessary). "
+    "Trusted, not proved: binary64 round-to-nearest meets the error bound in the normal range, CPython int->float is exact below 2^53, "
+    "int/int true division is the correctly rounded quotient, comparisons are exact",
     "weight index int(100*f) vs exact floor may differ by one when 100*f is within rounding of an integer (accepted +-1 step there)",
     "Halton value of the random-spread phase is an oracle in the model (range/sum theorem for every value in [0,1])",
   ]
   rng = ctx.rng
+  check_doubles(ctx)
   nsel = (4000 if ctx.tier == "quick" else 150000) * scale
   for _ in range(nsel):
     b, n, f, o = gen_counts(rng)
